@@ -103,3 +103,152 @@ def classify(hits):
         if c is None:
             unknown.append(rec)
     return out, unknown
+
+
+# ===================================================================================================== AST scan (clang-query)
+"""The same supporting fact read off clang's AST instead of tokens (clang-query-14, matchers over every translation unit):
+  * every `mutable` FieldDecl,
+  * every VarDecl with static storage duration that is not constexpr: function-local statics (`local`) and namespace-scope
+    variables / static data members (`global`), const ones included (their dynamic initialisation is a write as well),
+declared in a file under include/ or src/ of the library.  Translation units: one generated umbrella TU that includes every header
+of include/ (so a header nobody includes yet is scanned too) and the .cpp files of src/ -- quick tier: those whose text contains one
+of the tokens `mutable`, `static`, `thread_local` (a pre-filter for which TUs clang is asked about; a keyword-free namespace-scope
+variable of a .cpp is then found by the thorough tier only, which scans every TU).  The result is cached under a content hash of
+include/ + src/.  A hit that AST_CLASSIFIED does not know makes the lint UNDECIDED (exit 2): a lint cannot refute, but it does not pass."""
+import hashlib
+import json
+import subprocess
+import concurrent.futures as _cf
+
+QUERY = '''set bind-root true
+set output diag
+enable output dump
+match fieldDecl(isExpansionInFileMatching("{root}/(include|src)/")).bind("field")
+match varDecl(isExpansionInFileMatching("{root}/(include|src)/"), hasStaticStorageDuration(), unless(isConstexpr()), unless(parmVarDecl()), hasParent(declStmt())).bind("local")
+match varDecl(isExpansionInFileMatching("{root}/(include|src)/"), hasStaticStorageDuration(), unless(isConstexpr()), unless(parmVarDecl()), unless(hasParent(declStmt()))).bind("global")
+match cxxConstCastExpr(isExpansionInFileMatching("{root}/(include|src)/")).bind("constcast")
+'''
+# (file, name) -> (class, why); statics by name where the same idiom repeats in every factory
+AST_STATIC_OK = {
+    'manager': ('init-once', 'factory singletons (loss_t::all(), solver_t::all(), generator_t::all() ...): function-local static filled under std::call_once, read-only afterwards (factory_t::get clones)'),
+    'flag': ('init-once', 'the std::once_flag guarding a factory singleton'),
+    'enum_strings': ('init-once', 'function-local `static const auto` table of enum names: the initialiser enum_string<tenum>() has no inputs (no parameter, no member, no other variable), so every thread that could win the initialisation race stores the same value; read-only afterwards'),
+    'options': ('init-once', 'same idiom as enum_strings (include/nano/core/strutil.h, include/nano/parameter.h)'),
+}
+AST_GLOBAL_OK = {
+    ('include/nano/parameter.h', 'LE'): ('init-once', 'namespace-scope `static const` tag object without state (LE_t{})'),
+    ('include/nano/parameter.h', 'LT'): ('init-once', 'namespace-scope `static const` tag object without state (LT_t{})'),
+}
+
+
+def _content_key(repo, tier):
+    h = hashlib.sha256(tier.encode() + open(os.path.abspath(__file__), 'rb').read())
+    for f in files(repo):
+        h.update(f.encode() + b'\0' + open(f, 'rb').read())
+    return h.hexdigest()[:24]
+
+
+def _run_query(tu, qfile):
+    cmd = ['clang-query-14', '-f', qfile, tu, '--'] + [x for x in astload.clang_flags() if x != '-fsyntax-only']
+    try:
+        r = subprocess.run(cmd, capture_output=True, text=True, timeout=280)
+    except (subprocess.TimeoutExpired, OSError) as e:
+        return tu, None, f'clang-query failed: {e}'
+    errs = [ln for ln in r.stderr.split('\n') if ' error: ' in ln]
+    if errs or 'Error parsing' in r.stdout or 'Matcher not found' in r.stdout:
+        return tu, None, (errs or [r.stdout[:300]])[0][:300]
+    return tu, r.stdout, None
+
+
+def scan_ast(tier='quick', repo=None):
+    """-> (hits [(kind, file, line, name, declaration line of clang's dump)], problems [str])"""
+    repo = repo or astload.REPO
+    cdir = os.path.join(astload.SCRATCH, 'cache')
+    cpath = os.path.join(cdir, f'C18_scan_{_content_key(repo, tier)}.json')
+    if os.path.exists(cpath):
+        try:
+            d = json.load(open(cpath))
+            return [tuple(x) for x in d['hits']], d['problems']
+        except (OSError, ValueError):
+            pass
+    wdir = os.path.join(astload.SCRATCH, 'scan')
+    os.makedirs(wdir, exist_ok=True)
+    astload.version_include_dir()
+    umbrella = os.path.join(wdir, f'nv_all_headers_{os.getpid()}.cpp')
+    hdrs = sorted(os.path.relpath(f, os.path.join(repo, 'include')) for f in files(repo) if f.startswith(os.path.join(repo, 'include') + os.sep))
+    open(umbrella, 'w').write(''.join(f'#include <{h}>\n' for h in hdrs))
+    qfile = os.path.join(wdir, f'query_{os.getpid()}.txt')
+    open(qfile, 'w').write(QUERY.format(root=re.escape(os.path.realpath(repo)).replace('\\/', '/')))
+    tus = [umbrella]
+    token_files = {os.path.join(repo, h[1]) for h in scan(repo) if h[0] == 'static storage'}      # token-level candidates (column-0 definitions)
+    for f in files(repo):
+        if f.endswith('.cpp') and f.startswith(os.path.join(repo, 'src') + os.sep):
+            if tier == 'thorough' or f in token_files or re.search(r'\b(mutable|static|thread_local)\b', strip_comments(open(f, errors='replace').read())):
+                tus.append(f)
+    hits, problems = {}, []
+    with _cf.ThreadPoolExecutor(max_workers=8) as ex:
+        for tu, out, err in ex.map(lambda t: _run_query(t, qfile), tus):
+            if err:
+                problems.append(f'{os.path.relpath(tu, repo) if tu != umbrella else "<all headers>"}: {err}')
+                continue
+            cur = None
+            for ln in out.split('\n'):
+                m = re.match(r'^(/[^:]+):(\d+):\d+: note: "(field|local|global|constcast)" binds here', ln)
+                if m:
+                    cur = (m.group(3), os.path.relpath(m.group(1), os.path.realpath(repo)), int(m.group(2)))
+                    if cur[0] == 'constcast':
+                        if not cur[1].startswith('..'):
+                            hits.setdefault(('const_cast', cur[1], cur[2], '?'), 'const_cast expression')
+                        cur = None
+                    continue
+                m = re.match(r'^(FieldDecl|VarDecl) 0x[0-9a-f]+ <[^>]*> \S+( implicit)?( referenced| used)* (\w+) \'', ln)
+                if m and cur:
+                    kind, rel, line = cur
+                    cur = None
+                    if kind == 'field' and not re.search(r"' mutable\b", ln):
+                        continue
+                    if rel.startswith('..'):
+                        continue
+                    k = {'field': 'mutable member', 'local': 'function-local static', 'global': 'namespace-scope / static member variable'}[kind]
+                    hits.setdefault((k, rel, line, m.group(4)), re.sub(r'0x[0-9a-f]+ ', '', ln)[:160])
+    for f in (umbrella, qfile):
+        try:
+            os.remove(f)
+        except OSError:
+            pass
+    res = sorted((k[0], k[1], k[2], k[3], v) for k, v in hits.items())
+    if not problems:
+        try:
+            os.makedirs(cdir, exist_ok=True)
+            json.dump({'hits': res, 'problems': problems}, open(cpath + f'.{os.getpid()}', 'w'))
+            os.replace(cpath + f'.{os.getpid()}', cpath)
+        except OSError:
+            pass
+    return res, problems
+
+
+def classify_ast(hits):
+    out, unknown = [], []
+    for kind, rel, line, name, text in hits:
+        if kind == 'mutable member':
+            c = CLASSIFIED.get((rel, name))
+        elif kind == 'function-local static':
+            c = AST_STATIC_OK.get(name)
+        else:
+            c = AST_GLOBAL_OK.get((rel, name)) or AST_STATIC_OK.get(name)
+        rec = {'kind': kind, 'file': rel, 'line': line, 'name': name, 'text': text, 'class': c[0] if c else 'UNCLASSIFIED', 'why': c[1] if c else ''}
+        out.append(rec)
+        if c is None:
+            unknown.append(rec)
+    return out, unknown
+
+
+if __name__ == '__main__':
+    import sys
+    import time
+    t0 = time.time()
+    hits, problems = scan_ast(sys.argv[1] if len(sys.argv) > 1 else 'quick')
+    print('seconds', round(time.time() - t0, 1), 'hits', len(hits), 'problems', problems)
+    recs, unknown = classify_ast(hits)
+    for r in recs:
+        print(r['class'], r['kind'], r['file'], r['line'], r['name'])
